@@ -34,6 +34,7 @@ def E(x):
 
 def shard(ctx):
     rng = ctx.rng
+    rp.IDENTITY_WRAP = 0.03     # leaves and compound nodes spelled through an identity-like notation (definition = bare metavariable)
     P = repo.P()
     T = rp.table()
     npairs = ctx.scale(96000, 1200000)
